@@ -1,6 +1,7 @@
 from .common import frame_unit, GATE_FILES, TOMO_FILES
 LEVEL = "other"
 EXPLANATION = ('Clause table. PROVED for every prepared state of the family (xlift symbolic): n=1 with Rz(phi)Ry(theta)|0> and n=2 with S.Rz(phi).CNOT.(Ry(theta) x H)|00> (post-selected CNOT), theta and phi symbolic: on exact noiseless frequencies of the circuits it requests, process() returns |psi><psi| of the dual-rail state the base circuit prepares (Hermitian, unit trace); the callback receives exactly one circuit per setting in {X,Y,Z}^n, each being the base circuit followed by the basis changes; the base circuit is unchanged; a second process() after the base was extended reconstructs the new state. BOUNDED (native floats): the same for n=1,2,3 incl. heralded CNOTs (GHZ-type state on 3 qubits) plus fidelity = 1 (scipy sqrtm). NOT under contract: _get_tomo_measurements / _calculate_expectation_value individually. ADDED LATER (bounded, native): base circuits whose heralds were declared directly on them, states with Pauli expectations of 1e-3 ... 1e-7; symbolic paths are capped at 24 (more = undecided).')
+EXPLANATION = EXPLANATION + ' ADDED IN ROUNDS 5-8. BOUNDED (native): two or three ancilla modes between the rails of a qubit (own heralds and added sub-circuits), heralds leaving on another mode than they enter (judged semantically), per-setting totals of the frequencies, a callback that sets a base-circuit Parameter before measuring, a refused reference matrix counted as a wrong report.'
 ASSUMPTIONS = ["A1: exact reals (xlift units)", "scipy.linalg.sqrtm principal root (fidelity, native units only)"]
 TRUSTED = ["xlift field + numpy proxy + exact permanent", "z3-nlsat", "spec amplitude formula"]
 
